@@ -676,7 +676,8 @@ def check_order(repo: Repo, res: Result, it: M.Interp, internal: set[str]) -> No
         detail = (
             f"with externals included the import of the external `{n}` is {'kept' if kept_when else 'dropped'} when no pattern matches `{m_}` and {'dropped' if kept_when else 'kept'} when one does "
             f"(all other facts equal: {fmt_env(env, {a for a in env if a != f'EXCL({m_!r})'})}; imports filtered in the order {', '.join(order)}), although `{m_}` is a {rel} of `{n}`, neither `{n}` nor one of its ancestors: "
-            f"the verdict on one import depends on which imports were filtered before it - an external that matches no pattern and has no matching ancestor vanishes with its import. "
+            f"the verdict on one import depends on which imports were filtered before it - "
+            + ("an external that matches a pattern (or has a matching ancestor) keeps its import. " if any(v for a, v in env.items() if a.startswith("EXCL(") and a != f"EXCL({m_!r})" and a[len("EXCL("):-1].strip("'\"") in {n, *M.dotted_ancestors(n)}) else "an external that matches no pattern and has no matching ancestor vanishes with its import. ")
             + (f"State kept between imports: {'; '.join(carriers[:4])}. " if carriers else "")
             + "A memo of excluded names may only hold names for which `the name or one of its ancestors matches` is true (the matching name and its descendants), never the ancestors above the match."
             + (f" Also spoiled: {', '.join(others[:6])}." if others else "")
